@@ -174,6 +174,8 @@ func readMap(source []byte, injectorFactory func(int) (keyValueInjector, error),
 	total := len(source)
 	if size, err := readCollectionSize(reader, version); err != nil {
 		return err
+	} else if size < 0 {
+		return collectionSizeNegative(size)
 	} else if inj, err := injectorFactory(size); err != nil {
 		return err
 	} else {
